@@ -18,11 +18,21 @@ CHECKS = {
    text="Differential testing of tokenize() against an independent reference lexer plus range/partition invariants, over every string up to length 6-8 on three class-covering alphabets (tens of millions of strings, exhaustive) and proptest-generated token soups and Unicode texts. Exhaustive for short strings, sampled beyond; it cannot show absence of defects for longer inputs or unlisted character classes.",
    note="Trusts the reference lexer written from the property statement, Rust's char classification, and unicode-segmentation's grapheme segmentation.",
    ref="DESIGN.md section 3, C09"),
+ "C10": dict(
+   technique="property-based testing (proptest) with metamorphic re-layout + bounded-exhaustive enumeration against the reference lexer",
+   text="Metamorphic testing: the token list of generated programs and of /repo/examples is rendered under generated layouts (spaces, tabs, NBSP, CRLF, comments of every kind, line breaks wherever the rule says they do not separate, terminators as `;` or line breaks) and must tokenize to the same stream and parse to the same term as the plain layout; conversely an inserted line break between an expression-ending and an expression-starting token must become a terminator; all strings up to length 6/7 over a layout alphabet are compared with the reference lexer. Sampled layouts, exhaustive short strings.",
+   note="Trusts the reference layout rule (transcribed from the property statement) used both to generate layouts and to judge short strings.",
+   ref="DESIGN.md section 3, C10"),
  "C11": dict(
    technique="bounded-exhaustive enumeration + property-based testing (proptest) against capture-avoiding substitution on named terms",
    text="signed_shift / unsigned_shift / open / free_variables are compared with renaming and capture-avoiding substitution on named terms (globally fresh binder names) and with the algebraic laws of the property, for every hole-free term up to 5-6 nodes over all formers, every 1-3-definition group with leaf slots, a full grid of cutoffs, amounts, indices and inserted terms, and proptest-generated deeper terms. Exhaustive within the bound, sampled beyond.",
    note="Trusts the named-term model (conversion by context of names; Barendregt convention) and the reading of open's shift argument stated in the evidence file.",
    ref="DESIGN.md section 3, C11"),
+ "C16": dict(
+   technique="property-based testing (proptest) round trip print -> tokenize -> parse",
+   text="Round-trip testing: generated source programs covering every (parent position x child form) pair are parsed, printed with Display, tokenized and parsed again in the same scope; the result must be structurally identical (indices, implicit flags, literals, definition order, holes, names except unused pi parameters). The evidence lists the pair matrix with counts. Sampled, not exhaustive; elaborated terms are covered through C05's and C19's programs.",
+   note="Trusts the structural comparison in bridge.rs; the recorded finding (implicit pi with unused parameter) is matched by that exact shape only.",
+   ref="DESIGN.md section 3, C16"),
 }
 NOT_YET = {}
 
